@@ -79,6 +79,7 @@ Diagnose ==
          [] E.e = "check" /\ E.r = "unsat" -> {"unsat_although_an_allowed_valid_schedule_exists"}
          [] E.e = "check" -> {"unknown_answer_not_expected_in_this_configuration"}
          [] E.e = "ret" /\ E.raised -> {"call_must_return"}
+         [] E.e = "ret" /\ pc = "found" -> {"incremental_loop_stopped_early_without_a_legal_reason"}
          [] E.e = "ret" -> {"returned_value_is_not_the_last_model"}
          [] E.e = "call" -> {"call_not_enabled"}
          [] OTHER -> {"event_not_enabled:" \o E.e}
